@@ -307,6 +307,28 @@ Section ClpMap.
   (* the entries an operation on key k does not address *)
   Definition others (k : option bytes) (l : list entry) : list entry :=
     match k with Some k => without k l | None => l end.
+
+  (* ClpMap(capacity, defaultTtl) requires defaultTtl >= 0 (it asserts so) *)
+  Definition dttl_ok (d : option Z) : Prop :=
+    match d with Some d => (0 <= d)%Z | None => True end.
+
+  (* When an operation purged the entries [purged] (listed from more to less recently used) and
+     kept [kept] of the entries it does not address: purging was necessary, i.e. the operation
+     is a capacity change or a successful add, and keeping even the most recently used victim
+     on top of what was kept would have exceeded the capacity [limit_after]. *)
+  Definition purge_justified (o : op) (res : result) (limit_after : N)
+             (kept purged : list entry) : Prop :=
+    match purged with
+    | [] => True
+    | x :: _ =>
+        match o with
+        | OSetLimit n => limit_after = n /\ n < total kept + e_mem x
+        | OAdd k v _ | OAddDefault k v =>
+            exists sz, res = RAdd true /\ size_of k v = Some sz /\
+                       limit_after < sz + total kept + e_mem x
+        | _ => False
+        end
+    end.
 End ClpMap.
 
 Arguments mkE {V}.
@@ -329,4 +351,4 @@ Arguments has_key {V}. Arguments total {V}. Arguments without {V}. Arguments fit
 Arguments fresh {V}. Arguments size_of {V}. Arguments spec_get {V}. Arguments spec_del {V}.
 Arguments spec_add {V}. Arguments spec_setLimit {V}. Arguments spec_new {V}.
 Arguments spec_step {V}. Arguments spec_obs {V}. Arguments spec_run {V}.
-Arguments op_ok {V}. Arguments op_key {V}. Arguments others {V}.
+Arguments op_ok {V}. Arguments op_key {V}. Arguments others {V}. Arguments purge_justified {V}.
